@@ -9,24 +9,27 @@ import (
 // Vars are the source-level variables of the project shape; source files are rendered
 // from them, so an edit is a change of one variable and "revert" reproduces the same text.
 type Vars struct {
-	A     int  // src/a.txt content version
-	B     int  // pkg/b.txt content version
-	X     int  // dir/x.txt content version
-	YName int  // 0: dir/y.txt exists, 1: the same content is called dir/z.txt
-	W     bool // dir/w.txt present
-	K     int  // lib.dawn constant: index into kvals
-	D     int  // default argument of leaf's function
-	H     int  // helper body version
-	G     int  // element of the global list referenced by mid
-	V     int  // closure variable referenced by mid
-	C1    bool // comment + blank line in BUILD.dawn
-	C2    bool // comment + docstring in lib.dawn
-	C3    bool // comment in pkg/BUILD.dawn
-	N     int  // misc/n.txt (outside every closure)
-	Edge  bool // top depends on //pkg:leaf
-	Other bool // target //pkg:other exists
-	FlagV int  // value of the flag read by leaf's package (passed as --pkg.mode=…)
-	Fail  [3]bool
+	A       int  // src/a.txt content version
+	B       int  // pkg/b.txt content version
+	X       int  // dir/x.txt content version
+	YName   int  // 0: dir/y.txt exists, 1: the same content is called dir/z.txt
+	W       bool // dir/w.txt present
+	K       int  // lib.dawn constant: index into kvals
+	D       int  // default argument of leaf's function
+	H       int  // helper body version
+	G       int  // element of the global list referenced by mid
+	V       int  // closure variable referenced by mid
+	C1      bool // comment + blank line in BUILD.dawn
+	C2      bool // comment + docstring in lib.dawn
+	C3      bool // comment in pkg/BUILD.dawn
+	N       int  // misc/n.txt (outside every closure)
+	Edge    bool // top depends on //pkg:leaf
+	Other   bool // target //pkg:other exists
+	FlagV   int  // value of the flag read by leaf's package (passed as --pkg.mode=…)
+	Missing bool // top also depends on a target that does not exist
+	Cycle   bool // leaf depends on top (a dependency cycle when the edge top->leaf exists)
+	Chatty  bool // bodies print lines (and a trailing partial line) through the thread's stdout
+	Fail    [3]bool
 }
 
 var kvals = []int{1, 300, 76800} // 1-byte, 2-byte and 4-byte pickle classes
@@ -98,12 +101,19 @@ target(name="mid", function=_mid, sources=["gen/g.txt", "dir"])
 def _top(t):
     step("top")
 `)
+	if v.Chatty {
+		b.WriteString("    say(\"top line 1\\ntop line 2\\npartial\")\n")
+	}
+	extra := ""
+	if v.Missing {
+		extra = ", \"//pkg:nosuch\""
+	}
 	if v.Edge {
 		b.WriteString("    emit(\"out/top\", \"top:\" + slurp(\"out/mid\") + \":\" + slurp(\"out/leaf\"))\n")
-		b.WriteString("target(name=\"top\", function=_top, deps=[\":mid\", \"//pkg:leaf\"])\n")
+		b.WriteString("target(name=\"top\", function=_top, deps=[\":mid\", \"//pkg:leaf\"" + extra + "])\n")
 	} else {
 		b.WriteString("    emit(\"out/top\", \"top:\" + slurp(\"out/mid\"))\n")
-		b.WriteString("target(name=\"top\", function=_top, deps=[\":mid\"])\n")
+		b.WriteString("target(name=\"top\", function=_top, deps=[\":mid\"" + extra + "])\n")
 	}
 	f["BUILD.dawn"] = b.String()
 
@@ -113,7 +123,14 @@ def _top(t):
 	}
 	p.WriteString("mode = parse_flag(\"mode\", default=\"m0\")\n")
 	fmt.Fprintf(&p, "def _leaf(t, d=%d):\n    step(\"leaf\")\n    emit(\"out/leaf\", \"leaf:\" + slurp(\"pkg/b.txt\") + \":\" + str(d) + \":\" + mode)\n", 5+v.D)
-	p.WriteString("target(name=\"leaf\", function=_leaf, sources=[\"b.txt\"])\n")
+	if v.Chatty {
+		p.WriteString("    say(\"leaf says\\n\")\n    say(\"hello\")\n    say(\" world\\n\")\n")
+	}
+	if v.Cycle {
+		p.WriteString("target(name=\"leaf\", function=_leaf, sources=[\"b.txt\"], deps=[\"//:top\"])\n")
+	} else {
+		p.WriteString("target(name=\"leaf\", function=_leaf, sources=[\"b.txt\"])\n")
+	}
 	if v.Other {
 		p.WriteString("def _other(t):\n    step(\"other\")\n    emit(\"out/other\", \"other\")\ntarget(name=\"other\", function=_other)\n")
 	}
@@ -133,9 +150,9 @@ func (v Vars) env(t string) string {
 	case tMid:
 		return fmt.Sprintf("G%d V%d", v.G, v.V)
 	case tTop:
-		return fmt.Sprintf("E%v", v.Edge)
+		return fmt.Sprintf("E%v C%v", v.Edge, v.Chatty)
 	case tLeaf:
-		return fmt.Sprintf("D%d F%d", v.D, v.FlagV)
+		return fmt.Sprintf("D%d F%d C%v", v.D, v.FlagV, v.Chatty)
 	case tOther:
 		return ""
 	}
